@@ -17,11 +17,12 @@ MANIFEST = dict(
     text="Proved on the tokener model (Props/C15.lean): json_tokener_new_ex refuses D < 1; for every reachable tokener and arbitrary hostile bytes the level "
          "stack has between 1 and D levels (never indexed outside the array, no recursion: memory bounded by D); the nesting error is raised exactly by the "
          "push test `depth >= max_depth - 1`, i.e. only when a child value starts inside a container that already occupies the last level, and is raised "
-         "then unless the byte closes an array. The grammar-level exactness (accept iff no value is enclosed by more than D-1 containers, error position = "
-         "first such value) is stated (DepthExactStatement) and decided by the differential run against the Lean specification's nest/firstDeep for "
-         "D = 1..40, one-shot and chunked; its full proof is the same induction over documents as C01's and is not finished.",
-    note="Trusted: Lean kernel + propext/Classical.choice/Quot.sound; Spec/Rfc8259.lean; harness/tok.c + Driver/Tok.lean; ASan as observer of the level array.",
-    technique="Lean 4 proof (stack invariant for all inputs; characterisation of the depth error) + correspondence run against the RFC 8259 specification",
+         "then unless the byte closes an array. Grammar-level exactness is the theorem `depth_exact` (+ `accepted_iff_nest_below`), proved by induction "
+         "over the RFC 8259 document type for every document, layout and D >= 1 in default and strict mode: accepted - with exactly the denoted value - iff "
+         "nest < D; otherwise error_depth, no value, position = the first value enclosed by D containers (Doc.firstDeep). The differential run compares "
+         "implementation, model and the specification's nest/firstDeep for D = 1..40, one-shot and chunked.",
+    note="Trusted: Lean kernel + propext/Classical.choice/Quot.sound; Spec/Rfc8259.lean; hypothesis LibcSpec (number conversion, as in C01); harness/tok.c + Driver/Tok.lean; ASan as observer of the level array.",
+    technique="Lean 4 proof (stack invariant for all inputs; exact accept/reject theorem by induction over documents) + correspondence run against the RFC 8259 specification",
     design="6/C15")
 
 
